@@ -1,6 +1,7 @@
 import BreezyVerif.Model.C05
 import BreezyVerif.Lemmas.C05
 import BreezyVerif.Lemmas.C05Files
+import BreezyVerif.Lemmas.C05Fine
 /-!
 C05 — concurrent pack writers and packers never lose committed data.
 
@@ -139,6 +140,136 @@ theorem save_skips_already_obsolete (s : Sys) (i : Nat) (clear : Bool) (n : Nat)
     n ∉ ((step s i (.save clear)).procs i).toObsolete := by
   simp only [step, upd_same, List.mem_append, List.mem_filter, not_or]
   exact ⟨hold, fun h => by simp [hn] at h⟩
+
+/-- **Committed data stays listed AND readable**: every committed revision is
+held by a pack that is listed in `pack-names` and whose `.pack` and indices are
+all in place (the join of `committed_data_kept` and `listed_pack_findable`). -/
+theorem committed_readable (chk : Bool) (d : Disk) (content : Nat → List Nat) (next : Nat)
+    (hb : ∀ n ∈ d.names, n < next) (hc : complete chk d = true) (sched : Schedule) :
+    let s := exec (Sys.init chk d content next) sched
+    ∀ r ∈ s.committed, ∃ m ∈ s.disk.names, r ∈ s.content m ∧ ready s.chk s.disk m = true := by
+  intro s r hr
+  have hinv := inv_exec _ sched (invA_init chk d content next hb) (invB_init chk d content next hc)
+  obtain ⟨n, hn, hrn⟩ := hinv.1.comm r hr
+  obtain ⟨m, hm, hrm⟩ := hinv.1.kept n hn r hrn
+  exact ⟨m, hm, hrm, hinv.2.r1 m hm⟩
+
+/-! ### transport-operation granularity (`Model/C05Fine.lean`)
+
+The same statements when the deletes of `_clear_obsolete_packs` and the moves of
+`_obsolete_packs` are single steps between which every other process may do
+anything (begin phases, perform its own queued operations): for EVERY schedule
+of `(process, begin phase | perform next queued operation)`. -/
+
+theorem fine_inv (chk : Bool) (d : Disk) (content : Nat → List Nat) (next : Nat)
+    (hb : ∀ n ∈ d.names, n < next) (hc : complete chk d = true) (sched : FSchedule) :
+    FInv (fexec (FSys.init (Sys.init chk d content next)) sched) :=
+  finv_exec _ sched (finv_init _ (invA_init chk d content next hb) (invB_init chk d content next hc))
+
+/-- committed data is listed and readable after every operation-granularity schedule -/
+theorem fine_committed_readable (chk : Bool) (d : Disk) (content : Nat → List Nat) (next : Nat)
+    (hb : ∀ n ∈ d.names, n < next) (hc : complete chk d = true) (sched : FSchedule) :
+    let s := (fexec (FSys.init (Sys.init chk d content next)) sched).s
+    ∀ r ∈ s.committed, ∃ m ∈ s.disk.names, r ∈ s.content m ∧ ready s.chk s.disk m = true := by
+  intro s r hr
+  have hinv := fine_inv chk d content next hb hc sched
+  obtain ⟨n, hn, hrn⟩ := hinv.a.comm r hr
+  obtain ⟨m, hm, hrm⟩ := hinv.a.kept n hn r hrn
+  exact ⟨m, hm, hrm, hinv.b.r1 m hm⟩
+
+/-- **a listed pack never disappears, not even between two renames of
+`_obsolete_packs` or two deletes of `_clear_obsolete_packs`** -/
+theorem fine_listed_pack_findable (chk : Bool) (d : Disk) (content : Nat → List Nat) (next : Nat)
+    (hb : ∀ n ∈ d.names, n < next) (hc : complete chk d = true) (sched : FSchedule) :
+    complete chk (fexec (FSys.init (Sys.init chk d content next)) sched).s.disk = true := by
+  have hinv := fine_inv chk d content next hb hc sched
+  have := hinv.b.r1
+  rw [fexec_chk] at this
+  simpa [complete, FSys.init, Sys.init] using this
+
+/-- **the reader clause at operation granularity**: whenever a process with a
+stale list reloads — at any point between any two transport operations of the
+others — its new list contains, for each revision of each pack it listed, a
+pack holding it whose files are all in place. -/
+theorem fine_reload_finds_data (chk : Bool) (d : Disk) (content : Nat → List Nat) (next : Nat)
+    (hb : ∀ n ∈ d.names, n < next) (hc : complete chk d = true) (sched : FSchedule) (p : Nat) :
+    let s := (fexec (FSys.init (Sys.init chk d content next)) sched).s
+    let s' := step s p .reload
+    ∀ n ∈ (s.procs p).names, ∀ r ∈ s.content n,
+      ∃ m ∈ (s'.procs p).names, r ∈ s'.content m ∧ ready s'.chk s'.disk m = true := by
+  intro s s'
+  have hinv := fine_inv chk d content next hb hc sched
+  exact reload_finds_of_inv s hinv.a hinv.b p
+
+/-- the phase-granularity model (the one compared with the real code after every
+phase) is the special case of the operation-granularity model in which a
+process' queued operations run without interruption -/
+theorem exec_refines_fine (s : Sys) (sched : Schedule) :
+    ∃ fs : FSchedule, fexec (FSys.init s) fs = FSys.init (exec s sched) :=
+  exec_is_fine_run s sched
+
+/-- non-vacuity at operation granularity: the packer (process 2) has saved and
+is moving its sources to `obsolete_packs/` one file at a time; in between, a
+writer saves, the stale reader 1 reloads and another process cleans
+`obsolete_packs/`: the directory is complete after every prefix -/
+example :
+    let s0 := Sys.init true ⟨[0, 1], packFiles true 0 ++ packFiles true 1, [], false⟩
+      (fun n => if n = 0 then [100] else if n = 1 then [101] else []) 10
+    let sched : FSchedule :=
+      [(0, .begin .reload), (1, .begin .reload), (2, .begin .reload), (0, .begin (.finish [102])),
+       (2, .begin (.repack [0, 1])), (2, .begin (.save true)), (2, .op), (2, .begin .obsolete), (2, .op), (2, .op),
+       (0, .begin (.save false)), (2, .op), (1, .begin .reload), (3, .begin .clearAll), (2, .op), (3, .op), (0, .op),
+       (2, .op), (3, .op), (2, .op), (2, .op), (2, .op), (2, .op), (2, .op), (2, .op), (2, .op), (3, .op), (3, .op)]
+    (∀ k ≤ sched.length, complete true (fexec (FSys.init s0) (sched.take k)).s.disk = true) ∧
+    (fexec (FSys.init s0) sched).s.disk.names = [13, 11] ∧
+    ((fexec (FSys.init s0) sched).s.procs 1).names = [13, 11] ∧
+    ((fexec (FSys.init s0) sched).s.procs 2).toObsolete = [] := by
+  decide
+
+/-! ### content-addressed names: what identical packs written by two processes do -/
+
+/-- on schedules without name reuse `execX` (what the driver runs) is `exec` -/
+theorem execX_base (s : Sys) (sched : Schedule) :
+    execX s (sched.map (fun a => (a.1, XAct.base a.2))) = exec s sched := by
+  induction sched generalizing s with
+  | nil => rfl
+  | cons a rest ih => exact ih _
+
+/-- **Witness (reproduced on the real code, reported).**  Two processes fetch the
+same revisions concurrently, so both write a pack with the same content hash
+`11`.  Process 0 commits it, then packs: `11` is combined into `13` and is about
+to be obsoleted.  Process 1 (which loaded the list before) finishes its
+identical pack — `NewPack.finish` renames it over `packs/11.pack` — and saves:
+the three-way merge lists `11` again (a new name for process 1).  Process 0 now
+moves the files of `11` to `obsolete_packs/`: `11` is listed and its files are
+gone.  All data is still held by `13`, but the directory lists a pack that
+cannot be found, and reloading does not help. -/
+theorem same_name_relisted_witness :
+    let s0 := Sys.init true ⟨[0, 1], packFiles true 0 ++ packFiles true 1, [], false⟩
+      (fun n => if n = 0 then [100] else if n = 1 then [101] else []) 10
+    let sched : XSchedule :=
+      [(1, .base .reload), (0, .base .reload), (0, .base (.finish [102])), (0, .base (.save false)),
+       (0, .base .reload), (0, .base (.repack [0, 1, 11])), (0, .base (.save true)),
+       (1, .finishAs 11 [102]), (1, .base (.save false)), (0, .base .obsolete)]
+    let s := execX s0 sched
+    s.disk.names = [13, 11] ∧ ready true s.disk 11 = false ∧ complete true s.disk = false ∧
+    (∀ r ∈ [100, 101, 102], r ∈ s.content 13) := by
+  decide
+
+/-- **Witness, the other window.**  Process 1 has finished its identical pack
+`11` but not saved yet; process 0 commits the same pack, packs and obsoletes
+`11`; then process 1 saves and lists `11`, whose files are in
+`obsolete_packs/`. -/
+theorem same_name_obsoleted_before_save_witness :
+    let s0 := Sys.init true ⟨[0, 1], packFiles true 0 ++ packFiles true 1, [], false⟩
+      (fun n => if n = 0 then [100] else if n = 1 then [101] else []) 10
+    let sched : XSchedule :=
+      [(0, .base .reload), (1, .base .reload), (1, .base (.finish [102])), (0, .finishAs 11 [102]),
+       (0, .base (.save false)), (0, .base .reload), (0, .base (.repack [0, 1, 11])), (0, .base (.save true)),
+       (0, .base .obsolete), (1, .base (.save false))]
+    let s := execX s0 sched
+    s.disk.names = [15, 11] ∧ ready true s.disk 11 = false ∧ complete true s.disk = false := by
+  decide
 
 /-! ### why the merge is needed -/
 
